@@ -503,7 +503,7 @@ fn on_small_stack<T: Send>(ctx: &Ctx, f: impl FnOnce() -> T + Send) -> T {
 }
 
 pub fn c04_faulted(ctx: &Ctx, out: &mut RunOut) -> Result<(), Violation> {
-    for k in ["fault-truncate", "fault-bit-flip", "fault-byte-burst", "fault-zero-block", "fault-stale-block", "fault-misdirected-block", "fault-duplicated-block", "fault-splice", "fault-digit-edit", "fault-ref-retarget", "fault-cipher-pad-edit", "fault-number-extreme", "fault-deferred-length-edit", "fault-encryption-key-name-damaged", "page-tree-walk-with-hostile-count", "base-with-deferred-length-in-the-clear", "deferred-length-changed-in-place", "deferred-length-extreme-only-fault", "entry-load-mem", "entry-load-from-faulty-source", "entry-incremental-load", "base-deep-nesting", "base-encrypted", "faulted-image-loaded-ok", "faulted-image-rejected"] {
+    for k in ["fault-truncate", "fault-bit-flip", "fault-byte-burst", "fault-zero-block", "fault-stale-block", "fault-misdirected-block", "fault-duplicated-block", "fault-splice", "fault-digit-edit", "fault-ref-retarget", "fault-cipher-pad-edit", "fault-number-extreme", "fault-deferred-length-edit", "fault-encryption-key-name-damaged", "fault-encrypted-string-cut-short", "page-tree-walk-with-hostile-count", "base-with-deferred-length-in-the-clear", "deferred-length-changed-in-place", "deferred-length-extreme-only-fault", "entry-load-mem", "entry-load-from-faulty-source", "entry-incremental-load", "base-deep-nesting", "base-encrypted", "faulted-image-loaded-ok", "faulted-image-rejected"] {
         ctx.count_n(k, 0); // registered so that a probe that never fires shows up as zero in the evidence
     }
     LENGTH_OBJECT_SPANS.with(|c| c.borrow_mut().clear());
@@ -538,6 +538,28 @@ pub fn c04_faulted(ctx: &Ctx, out: &mut RunOut) -> Result<(), Violation> {
                 img[digits_at..b].copy_from_slice(&d);
                 ctx.count("fault-deferred-length-edit");
                 kinds.push("deferred-length-edit");
+            }
+        }
+        // encrypted files: a sixth of the variants cuts one string short without moving anything: the tail
+        // of a hexadecimal string becomes white-space, or a literal string gets its closing parenthesis early
+        // (ciphertext that is no longer a whole number of cipher blocks, or shorter than an IV)
+        if kinds.is_empty() && what.starts_with("lopdf-encrypted") && ctx.chance(F, 1, 6, "enc-string-cut") {
+            let starts: Vec<usize> = (0..img.len().saturating_sub(4))
+                .filter(|&i| (img[i] == b'<' && img[i + 1] != b'<' && (i == 0 || img[i - 1] != b'<') && img[i + 1].is_ascii_hexdigit()) || (img[i] == b'(' && (i == 0 || img[i - 1] != b'\\')))
+                .collect();
+            if !starts.is_empty() {
+                let a = starts[ctx.draw(F, starts.len() as u64, "enc-string-which") as usize];
+                let keep = 1 + ctx.draw(F, 31, "enc-string-keep") as usize;
+                if img[a] == b'<' {
+                    let end = (a..img.len()).find(|&i| img[i] == b'>').unwrap_or(img.len());
+                    for i in (a + 1 + 2 * keep).min(end)..end {
+                        img[i] = b' ';
+                    }
+                } else if a + 1 + keep < img.len() {
+                    img[a + 1 + keep] = b')';
+                }
+                ctx.count("fault-encrypted-string-cut-short");
+                kinds.push("enc-string-cut");
             }
         }
         // encrypted files: a sixth of the variants is one damaged character in one key name of the
